@@ -26,6 +26,9 @@ CHECKS = {
  "C18": ("bounded-exhaustive program-space x input-space enumeration with a call-counting error function, on compiled derive output vs reference parser",
          "For every enum of the bounded space built with and without parse_err_ty/parse_err_fn, every input of the closure is parsed; rejected inputs must return f(original input) with exactly one call of f, accepted inputs zero calls; the associated error types are checked at compile time.",
          "trusted: rustc, derived Debug, the counting function vf_core::my_err, vf-core R-parse", "DESIGN.md §4 C18"),
+ "C20": ("bounded-exhaustive enumeration of malformed derive inputs (rule x consuming derive x variant kind x position x repetition form) compiled by rustc; per-item diagnostic attribution with iterated passes; one-bit observation (located error / panic / clean)",
+         "Every rejection rule of the statement is instantiated on every derive that consumes the construct, in every listed shape/position/form; each item must receive a located compile error, must not make the derive panic and must not compile cleanly; valid controls must stay diagnostic-free. The observation per program is rustc's verdict, so the enumeration is of the program space only.",
+         "trusted: rustc JSON diagnostics and spans, the applicability table (derive docs); an error anywhere inside the item counts as located at the item", "DESIGN.md §4 C20"),
 }
 PENDING = {}
 
